@@ -24,7 +24,7 @@ REQUIRED_FUNCTIONS = ["program.py:BlackbirdProgram.serialize", "program.py:numpy
 FUNCTIONS = REQUIRED_FUNCTIONS
 REQUIRED_TAGS = ["kind:np.int64", "kind:np.float64", "kind:np.complex128", "kind:int", "kind:float", "kind:complex", "kind:bool", "kind:str",
                  "kind:list", "kind:array:i", "kind:array:f", "kind:array:c", "kind:sympy", "options", "options-list", "np-int-modes",
-                 "neg-zero", "subnormal", "huge", "no-arglist",
+                 "neg-zero", "subnormal", "huge", "no-arglist", "type:tdm", "string:name-like",
                  "twin-array:same-object", "twin-array:equal-other-dtype", "twin-array:zeros-other-dtype", "twin-array:equal-copy", "twin-array:same-bytes-other-shape",
                  "layout:transpose", "layout:fortran", "layout:flip-rows", "layout:strided"]
 ASSUMPTIONS = ["supported values as listed in the property; lists only in keyword position and options (no script can denote a positional list)",
@@ -64,6 +64,10 @@ class Builder:
     def s(self):
         r = self.r
         alphabet = "abcXYZ019 _-+*/=.,:;()[]{}<>!?#$%&@^~|'\\`"
+        if r.random() < 0.12:
+            # strings that look like names with a meaning elsewhere in the language
+            self.tags.add("string:name-like")
+            return r.choice(["", "p", "p0", "p1", "p12", "p0x", "q0", "q", "True", "None", "pi", "tdm", "name", "int", "j", "1j", "0", "-1", "1e5"])
         return "".join(r.choice(alphabet) for _ in range(r.choice([0, 1, 3, 6, 12])))
 
     def scalar(self, allow_sym=False):
@@ -260,6 +264,10 @@ class Builder:
             p._target["options"] = self.options()
         if r.random() < 0.3:
             p._type["name"] = self.G.ident(fresh=False)
+            if r.random() < 0.4:
+                # the one program type with a serialisation rule of its own
+                p._type["name"] = "tdm"
+                self.tags.add("type:tdm")
             p._type["options"] = self.options()
         for _ in range(r.choice([1, 2, 2, 3, 5, 8])):
             nm = r.choice([1, 1, 2, 3, 4])
